@@ -12,7 +12,9 @@ the Cartesian order for l <= 2 (l = 3: a seeded sample in the quick tier, all 10
 blocks) and random ones above; every order/sign pattern of the labels for l <= 2 and random ones above; a
 malformed stream (labels that are not one of the four documented forms, wrong count, repeated / missing
 functions, wrong index, Cartesian lists that are not a rearrangement of the components) on which model and
-implementation must both reject (any exception = rejected); the overlap matrix of one spherical shell
+implementation must both reject (any exception = rejected); most requests are SEQUENCES of calls on one pair of
+caller-owned convention objects (list or tuple of labels, component array) that must come back unchanged, each
+result compared with the model ("right" then "left", twice "left", ...); the overlap matrix of one spherical shell
 (implementation only) must be the identity to 1e-8; once per run the generic-field model `Model/Spherical.v`
 (command 4, used by the integral checks) is compared with the exact model for l <= 4."""
 import itertools
@@ -33,7 +35,12 @@ RULE = ("generate_transformation vs exact r*sqrt(q) model: default conventions f
         "Cartesian orders: all permutations for l<=2, l=3 sampled (quick) / all 10! in blocks (thorough), random above; "
         "label order/sign patterns: all (2l+1)! * 2^(2l+1) for l<=2, random above; malformed stream (bad label syntax, "
         "count, repeats, index, bad Cartesian lists) where both sides must reject; default orders of the shell class "
-        "for every l<=10; identity overlap of one spherical shell (l<=4 quick, l<=6 thorough). A case is non-trivial "
+        "for every l<=10; identity overlap of one spherical shell (l<=4 quick, l<=6 thorough). REUSED OBJECTS (tag "
+        "'reused-objects'; every case of the default, label-pattern, random-convention, malformed and l<=2 cart-perm "
+        "streams, every 5th l=3 sample): ONE labels object (a list, or a tuple when as_tuple) and ONE component array "
+        "are handed to a sequence of 2-3 calls ('right','left','left' / 'left','left','right' / ...); after every call, "
+        "returning or raising, the objects must be element-wise what the caller built, and EVERY result of the sequence "
+        "is compared with the exact model for its side. A case is non-trivial "
         "when l>=1 (more than one function) or when it belongs to the malformed stream; distinct by the hash of the "
         "exact request; a block of permutations counts as one distinct case")
 ASSUMPTIONS = [
@@ -48,6 +55,15 @@ EXTRA = {"exhaustive": False}
 TOL = 1e-12
 
 SIDES = ("left", "right")
+# sequences of calls made with ONE pair of convention objects ("right" then "left"; twice "left"; ...)
+REUSE = (["right", "left", "left"], ["left", "left", "right"], ["left", "right"], ["right", "right", "left"])
+
+
+def with_reuse(case, k):
+    """turn a single request into a sequence on the same objects; the first side stays the case's own"""
+    seqs = [q for q in REUSE if q[0] == case["side"]]
+    case["reuse"] = list(seqs[k % len(seqs)])
+    return case
 
 
 # ----------------------------------------------------------------------------------------------
@@ -127,14 +143,44 @@ def compare_matrix(impl, model_mat):
 # evaluation of one case
 # ----------------------------------------------------------------------------------------------
 def eval_gen(model, case):
+    """One request, or (case["reuse"] = list of sides) a SEQUENCE of requests made with the SAME convention objects:
+    one list (or tuple) of labels and one component array are built once and handed to every call of the sequence.
+    After every call, returning or raising, the objects must still hold exactly what the caller put there (same
+    length, every element the same str / the same integers), and every result must agree with the exact model for
+    its side - so a call that edits the caller's convention, or remembers something from an earlier call, shows."""
     from gbasis.spherical import generate_transformation
 
-    res = model.call(cmd170(case))
-    m_ok = len(res) == 1
-    labels = case["labels"]
-    labels = tuple(labels) if case.get("as_tuple") else list(labels)
+    labels0 = list(case["labels"])
+    labels = tuple(labels0) if case.get("as_tuple") else list(labels0)
     carts = np.array(case["carts"], dtype=int).reshape(len(case["carts"]), 3) if case["carts"] else np.zeros((0, 3), int)
-    st, impl = call_impl(generate_transformation, case["l"], carts, labels, case["side"])
+    carts0 = carts.copy()
+    sides = case.get("reuse") or [case["side"]]
+    models = {}
+    for k, side in enumerate(sides):
+        if side not in models:
+            models[side] = model.call(cmd170(dict(case, side=side)))
+        res = models[side]
+        st, impl = call_impl(generate_transformation, case["l"], carts, labels, side)
+        d = None
+        same_labels = (len(labels) == len(labels0)
+                       and all(type(a) is type(b) and a == b for a, b in zip(labels, labels0)))
+        if not same_labels:
+            d = {"kind": "convention-object-changed", "object": "spherical_order (%s)" % type(labels).__name__,
+                 "impl": "after the call: %r" % (list(labels),), "model": "as passed: %r" % (labels0,)}
+        elif carts.shape != carts0.shape or carts.dtype != carts0.dtype or not np.array_equal(carts, carts0):
+            d = {"kind": "convention-object-changed", "object": "cartesian_order",
+                 "impl": "after the call: %r" % (carts.tolist(),), "model": "as passed: %r" % (carts0.tolist(),)}
+        else:
+            d = compare_outcome(st, impl, res)
+        if d is not None:
+            if len(sides) > 1:
+                d["call"] = "call %d of %d with the same objects, apply_from=%r (sequence %r)" % (k + 1, len(sides), side, sides)
+            return d
+    return None
+
+
+def compare_outcome(st, impl, res):
+    m_ok = len(res) == 1
     i_ok = st == "ok"
     if m_ok != i_ok:
         if i_ok:
@@ -173,7 +219,8 @@ def eval_case(model, case):
     if kind == "gen":
         d = eval_gen(model, case)
         nontriv = case["l"] >= 1 or case.get("stream") == "malformed"
-        return {"detail": d, "nontrivial": nontriv, "tag": "%s l=%d" % (case.get("stream", "gen"), case["l"])}
+        return {"detail": d, "nontrivial": nontriv,
+                "tag": "%s%s l=%d" % (case.get("stream", "gen"), " reused-objects" if case.get("reuse") else "", case["l"])}
     if kind == "permblock":
         fails = []
         n = 0
@@ -257,8 +304,9 @@ def malformed_cases(rng, tier):
     cases = []
 
     def add(l, carts, labels, why, side=None):
-        cases.append({"kind": "gen", "l": l, "carts": carts, "labels": labels,
-                      "side": side or SIDES[len(cases) % 2], "stream": "malformed", "why": why})
+        cases.append(with_reuse({"kind": "gen", "l": l, "carts": carts, "labels": labels,
+                                 "side": side or SIDES[len(cases) % 2], "stream": "malformed", "why": why},
+                                len(cases) // 2))
 
     lmax = 3 if tier == "quick" else 5
     for l in list(range(lmax + 1)) + [10]:
@@ -319,19 +367,20 @@ def gen_cases(tier, seed):
     for l in range(11):
         cases.append({"kind": "defaults", "l": l})
         for side in SIDES:
-            cases.append({"kind": "gen", "l": l, "carts": default_comps(l), "labels": default_labels(l), "side": side,
-                          "as_tuple": side == "right", "stream": "default"})
+            cases.append(with_reuse({"kind": "gen", "l": l, "carts": default_comps(l), "labels": default_labels(l),
+                                     "side": side, "as_tuple": side == "right", "stream": "default"}, l))
     # Cartesian orders: all permutations l <= 2
     for l in (0, 1, 2):
         for k, p in enumerate(itertools.permutations(default_comps(l))):
-            cases.append({"kind": "gen", "l": l, "carts": [list(c) for c in p], "labels": default_labels(l),
-                          "side": SIDES[k % 2], "stream": "cart-perm"})
+            cases.append(with_reuse({"kind": "gen", "l": l, "carts": [list(c) for c in p], "labels": default_labels(l),
+                                     "side": SIDES[k % 2], "stream": "cart-perm"}, k // 2))
     if quick:
         for k in range(5000):
             p = default_comps(3)
             rng.shuffle(p)
-            cases.append({"kind": "gen", "l": 3, "carts": p, "labels": default_labels(3), "side": SIDES[k % 2],
-                          "stream": "cart-perm"})
+            c = {"kind": "gen", "l": 3, "carts": p, "labels": default_labels(3), "side": SIDES[k % 2],
+                 "stream": "cart-perm"}
+            cases.append(with_reuse(c, k // 20) if k % 10 < 2 else c)
     else:
         total = math.factorial(10)
         step = 5040
@@ -344,8 +393,9 @@ def gen_cases(tier, seed):
         for p in itertools.permutations(base):
             for signs in itertools.product((False, True), repeat=len(base)):
                 labs = [("-" + s) if n else s for s, n in zip(p, signs)]
-                cases.append({"kind": "gen", "l": l, "carts": default_comps(l), "labels": labs, "side": SIDES[k % 2],
-                              "as_tuple": k % 3 == 0, "stream": "label-pattern"})
+                cases.append(with_reuse({"kind": "gen", "l": l, "carts": default_comps(l), "labels": labs,
+                                         "side": SIDES[k % 2], "as_tuple": k % 3 == 0, "stream": "label-pattern"},
+                                        k // 2))
                 k += 1
     # random conventions above (both orders shuffled, random signs)
     nrand = 30 if quick else 150
@@ -358,8 +408,8 @@ def gen_cases(tier, seed):
             if k % 3 != 2:
                 rng.shuffle(labs)
                 labs = [("-" + s) if rng.random() < 0.4 else s for s in labs]
-            cases.append({"kind": "gen", "l": l, "carts": comps, "labels": labs, "side": SIDES[k % 2],
-                          "as_tuple": k % 4 == 0, "stream": "random-convention"})
+            cases.append(with_reuse({"kind": "gen", "l": l, "carts": comps, "labels": labs, "side": SIDES[k % 2],
+                                     "as_tuple": k % 4 == 0, "stream": "random-convention"}, k // 2))
     cases += malformed_cases(rng, tier)
     # overlap of one spherical shell
     lmax = 4 if quick else 6
@@ -388,7 +438,17 @@ def shrink_case(case):
                 c["labels"] = list(case["labels"])
                 c["labels"][k] = b
                 yield c
-    if case["side"] != "left":
+    if case.get("reuse"):
+        seq = case["reuse"]
+        for k in range(len(seq)):
+            c = dict(case)
+            c["reuse"] = seq[:k] + seq[k + 1:]
+            if c["reuse"]:
+                c["side"] = c["reuse"][0]
+            else:
+                del c["reuse"]
+            yield c
+    elif case["side"] != "left":
         c = dict(case)
         c["side"] = "left"
         yield c
